@@ -54,4 +54,14 @@ def fields (isDelim : Nat → Bool) : List Nat → List (List Nat)
 def tokens (delims s : List Nat) : List (List Nat) :=
   (fields (delims.contains ·) s).filter (fun f => !f.isEmpty)
 
+/-- `ts` are exactly the maximal non-empty runs of non-delimiters of the text, in order: the text
+    is a (possibly empty) gap of delimiters, then — if anything is left — a non-empty token without
+    delimiters that ends at the end of the text or right before a delimiter, and so on.  (Each token
+    is bounded by a delimiter or a text boundary on both sides, and every non-delimiter is in a token.) -/
+inductive Runs (isDelim : Nat → Bool) : List Nat → List (List Nat) → Prop
+  | done (g : List Nat) (hg : ∀ c ∈ g, isDelim c = true) : Runs isDelim g []
+  | tok (g t rest : List Nat) (ts : List (List Nat)) (hg : ∀ c ∈ g, isDelim c = true) (hne : t ≠ [])
+      (ht : ∀ c ∈ t, isDelim c = false) (hr : rest = [] ∨ ∃ c r, rest = c :: r ∧ isDelim c = true)
+      (h : Runs isDelim rest ts) : Runs isDelim (g ++ t ++ rest) (t :: ts)
+
 end StVerif.Spec.Split
